@@ -64,6 +64,9 @@ def build_graph(mod, g, order=None):
                 later.append((i, name, v))
         objs[i] = getattr(mod, nd["cls"])(**kwargs)
         if str(i) in (g.get("loaded") or {}):
+            if nd["meta"] is not None:
+                # the flag is set before the round trip: it must come back with the configuration
+                setmeta(objs[i], nd["meta"])
             objs[i] = reload_config(objs[i], g["loaded"][str(i)])
         if str(i) in (g.get("constset") or {}):
             cs = g["constset"][str(i)]
@@ -78,7 +81,7 @@ def build_graph(mod, g, order=None):
             tgt = tgt[m["idx"]]
         setattr(tgt, m["name"], real_val(mod, m["v"], objs))
     for i, nd in enumerate(nodes):
-        if nd["meta"] is not None:
+        if nd["meta"] is not None and str(i) not in (g.get("loaded") or {}):
             setmeta(objs[i], nd["meta"])
         if nd["pre"]:
             objs[i].add_pretasks(*[objs[p] for p in nd["pre"]])
